@@ -171,6 +171,7 @@ def intEngine (f : String) (args : List String) : String :=
     | "b.hash", [a] => showXR (IntB.hash a)
     | "b.binom", [a, b] => showXR (IntB.binom a b)
     | "b.digits", [a, b] => showXR (IntB.digits a b)
+    | "b.multinom", ks => showXR (IntB.multinom ks)
     | _, _ => "bad-op"
 
 
